@@ -11,6 +11,7 @@ from sa.rulekit import (nodes_where, node_calls, node_roots, nodes_calling, retu
                         expr_is, kw)
 from sa.report import path_witness
 from rules.simloop import SimLoop, SIMULATE
+from rules.wiring import wiring_rules
 
 UNDECIDED = [
     "that calc_output of Xor / Compare (hysteresis arithmetic) / Override / user FuncBlock "
@@ -229,88 +230,7 @@ def run(ck):
     ck.ob(R7, f"{eb.fid} :: UNDEF refused", bool(undef), "an UNDEF result raises", eb, eb.node)
 
     # ------------------------------------------------------------------ R01.8
-    fz = prog.func('simulator:Circuit._finalize')
-    gf = ck.cfg(fz.fid, 'M0')
-    ic = nodes_where(gf, lambda n: any(call_name(c) == 'add' and norm(c.func.value).endswith('.iconnections')
-                                       for c in node_calls(n)))
-    oc = nodes_where(gf, lambda n: any(call_name(c) == 'add' and norm(c.func.value).endswith('.oconnections')
-                                       for c in node_calls(n)))
-    ok = len(ic) == 1 and len(oc) == 1
-    if ok:
-        i_c = node_calls(ic[0], 'add')[0]
-        o_c = node_calls(oc[0], 'add')[0]
-        x = norm(i_c.func.value)[:-len('.iconnections')]      # blk
-        y = norm(i_c.args[0])                                  # inp
-        recv = norm(o_c.func.value)[:-len('.oconnections')]
-        ok = norm(o_c.args[0]) == x and recv in (y, f"self._blocks[{y}.name]") and \
-            gf.guard_texts(ic[0]) == gf.guard_texts(oc[0]) and \
-            gf.has_guard(ic[0], f'isinstance({y}, block.Const)', False)
-        # same basic block: each is reached iff the other is
-        first, second = (ic[0], oc[0]) if gf.dominates(ic[0], oc[0]) else (oc[0], ic[0])
-        ok = ok and gf.dominates(first, second) and \
-            gf.path_avoiding(first, [gf.exit] + [n for n in gf.nodes if n.kind == 'for'],
-                             avoid=[second], start_successors_only=True) is None
-    ck.ob(R8, f"{fz.fid} :: iconnections/oconnections pair", ok,
-          "B.iconnections.add(A) and A.oconnections.add(B) are executed together for every "
-          "non-Const input" if ok else
-          "the two connection sets are not updated as a pair (A feeds B must imply both "
-          "B in A.oconnections and A in B.iconnections)", fz, ic[0].ast if ic else fz.node)
-    # iteration over all collected inputs
-    if ic:
-        loops = [n for n in gf.nodes if n.kind == 'for' and gf.dominates(n, ic[0])]
-        inner = max(loops, key=lambda n: n.id) if loops else None
-        coll = norm(inner.ast.iter) if inner is not None else None
-        ext = nodes_where(gf, lambda n: any(call_name(c) in ('extend', 'append') and
-                                            norm(c.func.value) == coll for c in node_calls(n)))
-        tup_true = [n for n in ext if any('tuple' in t and p for t, p in gf.guard_texts(n))]
-        tup_false = [n for n in ext if any('tuple' in t and not p for t, p in gf.guard_texts(n))]
-        wb = nodes_where(gf, lambda n: isinstance(n.ast, ast.Assign) and
-                         isinstance(n.ast.targets[0], ast.Subscript) and
-                         norm(n.ast.targets[0].value).endswith('.inputs'))
-        ok = len(tup_true) == 1 and len(tup_false) == 1 and len(wb) == 2
-        if ok:
-            for e in (tup_true[0], tup_false[0]):
-                c = [c for c in node_calls(e) if call_name(c) in ('extend', 'append')][0]
-                same_guard = [w for w in wb if gf.guard_texts(w) == gf.guard_texts(e)]
-                ok = ok and len(same_guard) == 1 and norm(same_guard[0].ast.value) == norm(c.args[0])
-                # the collected value is the validated one
-                vals2 = ck.rdefs(fz.fid, 'M0').value_exprs(e, norm(c.args[0]))
-                ok = ok and bool(vals2) and all(not isinstance(x2, str) and 'validate_output' in norm(x2)
-                                               for x2 in vals2)
-        ck.ob(R8, f"{fz.fid} :: single and group branch agree", ok,
-              "both input shapes are resolved, collected for wiring and written back to "
-              "blk.inputs" if ok else
-              "the group branch and the single-input branch do not perform the same three steps "
-              "(resolve, collect, write back)", fz, ext[0].ast if ext else fz.node)
-        # the wiring loop runs for every processed block: it is inside the per-block loop
-        blk_loops = [n for n in gf.nodes if n.kind == 'for' and 'getblocks' in norm(n.ast.iter)]
-        ok = bool(blk_loops) and gf.dominates(blk_loops[0], ic[0]) and \
-            'list(' in norm(blk_loops[0].ast.iter)
-        ck.ob(R8, f"{fz.fid} :: per-block wiring over a copy", ok,
-              "every block of the pass is wired; the pass iterates over a copy (new inverter "
-              "blocks may be created)" if ok else
-              "the wiring is not performed for each processed block over a stable copy", fz,
-              blk_loops[0].ast if blk_loops else fz.node)
-        passes = [n for n in gf.nodes if n.kind == 'for' and isinstance(n.ast.iter, ast.Tuple)]
-        ok = len(passes) == 1 and [norm(e) for e in passes[0].ast.iter.elts] == ['block.CBlock', 'cblocks.Not']
-        ck.ob(R8, f"{fz.fid} :: second pass for new inverters", ok,
-              "a second pass processes the inverter blocks created by the first" if ok else
-              "inverter blocks created during the first pass are not processed", fz,
-              passes[0].ast if passes else fz.node)
-    # who mutates connection sets
-    n_mut = 0
-    for f2 in prog.pkg_funcs(include_demo=True):
-        for c in [x for x in own_nodes(f2.node) if isinstance(x, ast.Call)]:
-            if isinstance(c.func, ast.Attribute) and c.func.attr in CONN_MUTATORS and \
-                    isinstance(c.func.value, ast.Attribute) and \
-                    c.func.value.attr in ('oconnections', 'iconnections'):
-                n_mut += 1
-                ok = f2.fid == fz.fid
-                ck.ob(R8, f"{f2.fid} :: {norm(c.func)}", ok,
-                      "connection sets are filled by _finalize" if ok else
-                      "connection data is modified outside Circuit._finalize", f2, c)
-    own(ck, R8, 'oconnections', {'block:Block.__init__': 'fresh empty set'})
-    own(ck, R8, 'iconnections', {'block:CBlock.__init__': 'fresh empty set'})
+    wiring_rules(ck, R8)
 
     # ------------------------------------------------------------------ R01.9
     for q in ('blocklib.cblocks:Not', 'blocklib.cblocks:Compare', 'blocklib.cblocks:Override'):
